@@ -278,6 +278,8 @@ def build(rng, kind, nin=1, pos=0, ht=1, mutate=None, annex=None, enc=None, wn=3
         control = bytes([0xc0 | par]) + p + path
         if mutate == "control":
             b = bytearray(control); b[rng.randrange(1, len(b))] ^= 1; control = bytes(b)
+        if isinstance(mutate, str) and mutate.startswith("ctlsize:"):
+            n = int(mutate[8:]); control = (control + bytes(n))[:n]; valid = False          # a control block of an illegal size
         if kind == "p2tr-weight" and isinstance(annex, str) and annex.startswith("auto"):
             # size the annex so that the serialized witness is exactly 50*wn + delta bytes (budget = that + 50, cost = 50*(wn+1))
             delta = int(annex[4:] or "0")
